@@ -213,12 +213,29 @@ def strArg (prec : Option Nat) (str : Bytes) : Bytes :=
   | none => cstrlen str
   | some p => (cstrlen str).take p
 
+/-- the bytes of a wide character (`%lc`): the library's UTF-8 encoder `gp_utf8_decode` applied to the
+argument taken as a 32-bit value (bits above the 21st are dropped by the four-byte form) -/
+def wcBytes (raw : Nat) : Bytes :=
+  let e := raw % 2 ^ 32
+  if e > 0x7F then
+    if e < 0x800 then [UInt8.ofNat (e / 64 % 32 + 0xC0), UInt8.ofNat (e % 64 + 0x80)]
+    else if e < 0x10000 then
+      [UInt8.ofNat (e / 4096 % 16 + 0xE0), UInt8.ofNat (e / 64 % 64 + 0x80), UInt8.ofNat (e % 64 + 0x80)]
+    else
+      [UInt8.ofNat (e / 262144 % 8 + 0xF0), UInt8.ofNat (e / 4096 % 64 + 0x80), UInt8.ofNat (e / 64 % 64 + 0x80),
+       UInt8.ofNat (e % 64 + 0x80)]
+  else [UInt8.ofNat e]
+
+/-- what `%c` / `%lc` print before padding: the argument as one byte, or the wide character's UTF-8 form -/
+def charBody (s : Spec) (raw : Nat) : Bytes :=
+  if s.len = .l then wcBytes raw else [UInt8.ofNat (raw % 256)]
+
 /-- one conversion; `none` when the argument kind does not fit -/
 def formatOne (s : Spec) : Arg → Option Bytes
   | .int raw =>
     if s.conv = 'd' ∨ s.conv = 'i' then some (fmtSigned s raw)
     else if s.conv = 'o' ∨ s.conv = 'u' ∨ s.conv = 'x' ∨ s.conv = 'X' then some (fmtUnsigned s raw)
-    else if s.conv = 'c' then some (padField { s.flags with zero := false } s.width [] [UInt8.ofNat (raw % 256)] false)
+    else if s.conv = 'c' then some (padField { s.flags with zero := false } s.width [] (charBody s raw) false)
     else if s.conv = 'p' then
       let v := raw % 2 ^ 64
       let body := if v = 0 then ascii "(nil)" else [48, 120] ++ natDigits 16 false v
